@@ -398,6 +398,26 @@ def main(chk):
     pub = [n.id for n in g.nodes if n.ast is not None and isinstance(n.ast, ast.Expr) and M.call_name(n.ast.value) == 'self.queue.append']
     mp = [n.id for n in g.nodes if n.ast is not None and isinstance(n.ast, ast.Assign) and U(n.ast.targets[0]).startswith('self.queue_lock_map[')]
     ok = bool(crt and acq and pub and mp) and g.dominates(crt[0], acq[0]) and g.dominates(acq[0], pub[0]) and g.dominates(mp[0], pub[0])
+    # the id a command is queued under is unique among the commands that are still around: id() of the freshly made lock that the map keeps alive, or a number drawn from a
+    # counter that only grows.  Anything computed from the present size of a table that also shrinks (entries are popped when results are collected) is handed out twice.
+    from verif_static import paths as PT
+    uniq_bad = []
+    n_keys = 0
+    for p_ in PT.enumerate_paths(M.docstring_stripped(disp.body)):
+        for e in p_:
+            if e.kind == 'stmt' and isinstance(e.node, ast.Assign) and U(e.node.targets[0]).startswith('self.queue_lock_map['):
+                n_keys += 1
+                key = PT.resolve(e.node.targets[0].slice, e.env)
+                val = PT.resolve(e.node.value, e.env)
+                kt = U(key).replace(' ', '')
+                fresh = kt in ('id(%s)' % U(e.node.value).replace(' ', ''), 'id(%s)' % U(val).replace(' ', '')) and 'Lock()' in U(val)          # id() of the very lock stored here, made in this call
+                counter = kt.startswith('next(') or kt.startswith('self._next_') or 'itertools.count' in kt
+                if not (fresh or counter):
+                    uniq_bad.append(kt)
+    chk.decide(n_keys > 0 and not uniq_bad, 'command-lock-handoff', 'dispatch:task-id-unique-among-live-commands', node=disp, file=CT, func='dispatch',
+               detail_bad='a command is queued under the id %s: not id() of the lock stored with it nor a value of a growing counter - while an earlier command with a higher number is '
+                          'still uncollected a new command gets the same id, one client receives the other\'s result and the second get_result fails' % (uniq_bad[:1] or ['?'])[0],
+               detail_ok='id(lock) of the lock kept in the map')
     chk.decide(ok, 'command-lock-handoff', 'dispatch:acquired-before-published', node=disp, file=CT, func='dispatch',
                detail_bad='a command id can become visible in the queue before its lock exists and is held: get_result could return before the command ran',
                detail_ok='Lock() -> acquire() -> map/queue insertion')
@@ -547,6 +567,23 @@ def main(chk):
         chk.decide(fm is not None and nk > 0 and badk is None, 'command-lock-handoff', 'pause-identity:%s' % mname, node=fm, file=CT, func=mname,
                    detail_bad='the pause is recorded under an identity that is not the calling thread\'s at the time of the call: %s' % badk,
                    detail_ok='self.pause.%s(threading.current_thread().ident)' % op_)
+    # ... and the thread that calls cont() must be the one that called pause_on_next(): the request/response servers among the interfaces serve every request of a client from
+    # one thread (the XML-RPC server: one thread for all clients).  A server that starts a thread per *request* (ThreadingMixIn / ForkingMixIn) gives cont() another identity than
+    # pause_on_next() had: KeyError, the pause is never released and the solver stays blocked
+    SIF = 'pysph/solver/solver_interfaces.py'
+    sif = M.py(SIF)
+    nsrv = 0
+    for c_ in M.classes(sif):
+        bases = [M.dotted(b) or U(b) for b in c_.bases]
+        if not any(b.split('.')[-1].endswith('Server') for b in bases):
+            continue
+        nsrv += 1
+        per_request = [b for b in bases if b.split('.')[-1] in ('ThreadingMixIn', 'ForkingMixIn', 'ThreadingTCPServer', 'ThreadingHTTPServer', 'ForkingTCPServer')]
+        chk.decide(not per_request, 'command-lock-handoff', 'pause-identity:%s-serves-from-one-thread' % c_.name, node=c_, file=SIF, func=c_.name,
+                   detail_bad='%s handles every request in a thread (process) of its own (%s): pause_on_next() and cont() record / look up the pause under the identity of the calling '
+                              'thread, so the cont() of the client that paused is served under another identity - KeyError, the pause stays, the solver never continues' % (c_.name, per_request),
+                   detail_ok='requests are served from the server thread')
+    chk.floor('request/response servers among the interfaces', nsrv, 1)
     # pause loop: solver makes no progress while any interface holds a pause
     loops = [l for l in ast.walk(wf) if isinstance(l, ast.While)]
     chk.decide(bool(loops) and U(loops[0].test) == 'self.pause', 'command-lock-handoff', 'solver:stays-paused', node=wf, file=CT,
